@@ -823,6 +823,47 @@ int _vnacal_new_add_common(vnacal_new_add_arguments_t vnaa)
     }
 
     /*
+     * If measurement errors were given and the type is T16 or U16, the
+     * S matrix must be complete.  Work out which cells of the full S
+     * matrix the steps below will fill (given cells, zeros between the
+     * ports of a diagonal standard, zeros between connected and
+     * unconnected ports) and refuse the standard before any of its
+     * parameters is added to the vnacal_new_t structure.
+     */
+    if (vnp->vn_m_error_vector != NULL &&
+	    (VL_TYPE(vlp) == VNACAL_T16 || VL_TYPE(vlp) == VNACAL_U16)) {
+	bool s_given[full_s_rows * full_s_columns];
+
+	for (int cell = 0; cell < full_s_rows * full_s_columns; ++cell) {
+	    s_given[cell] = false;
+	}
+	for (int s_cell = 0; s_cell < s_cells; ++s_cell) {
+	    s_given[s_cell_map[s_cell]] = true;
+	}
+	for (int r = 0; r < full_s_rows; ++r) {
+	    for (int c = 0; c < full_s_columns; ++c) {
+		const int cell = r * full_s_columns + c;
+
+		if (vnaa.vnaa_s_is_diagonal && r != c &&
+			port_connected[r] && port_connected[c]) {
+		    s_given[cell] = true;
+		}
+		if (s_port_map != NULL &&
+			port_connected[r] != port_connected[c]) {
+		    s_given[cell] = true;
+		}
+	    }
+	}
+	for (int cell = 0; cell < full_s_rows * full_s_columns; ++cell) {
+	    if (!s_given[cell]) {
+		_vnacal_new_err_need_full_s(vnp, function,
+			vnp->vn_measurement_count + 1, cell);
+		goto out;
+	    }
+	}
+    }
+
+    /*
      * Construct the vnacal_new_measurement_t S matrix.
      */
     for (int s_cell = 0; s_cell < s_cells; ++s_cell) {
@@ -889,21 +930,6 @@ int _vnacal_new_add_common(vnacal_new_add_arguments_t vnaa)
 		    assert(full_s_matrix[cell] == NULL);
 		    full_s_matrix[cell] = vnp->vn_zero;
 		}
-	    }
-	}
-    }
-
-    /*
-     * If measurement errors were given and the type is T16 or U16,
-     * the S matrix must be complete.
-     */
-    if (vnp->vn_m_error_vector != NULL &&
-	    (VL_TYPE(vlp) == VNACAL_T16 || VL_TYPE(vlp) == VNACAL_U16)) {
-	for (int s_cell = 0; s_cell < full_s_rows * full_s_columns; ++s_cell) {
-	    if (full_s_matrix[s_cell] == NULL) {
-		_vnacal_new_err_need_full_s(vnp, function,
-			vnp->vn_measurement_count + 1, s_cell);
-		goto out;
 	    }
 	}
     }
